@@ -264,6 +264,7 @@ def run(chk, tier, seed):
     counts, secs = LC.run_items(chk, LC.bytes_item, items)
     n = api_level(chk, tier)
     from checks import fixed_clauses
+    fixed_clauses.str_bytes_twins(chk)
     fixed_clauses.bytes_without_inclusions(chk)
     chk.rule = ('finite: every paired (str, bytes) constant and POSIX table entry compared completely; L: one case = one (ASCII pattern, flags): the bytes regex and the str regex '
                 'are language-equal over ALL byte strings (alphabet 0..255), incl. every POSIX class, reversed ranges; B: API-level f(x) vs f(encode(x)) for filter / globfilter / '
